@@ -297,10 +297,18 @@ def corr_formulas(ctx, escalate=1):
 
 
 # ---------------------------------------------------------------------------- geometries
-def geometry(rng, p, kind):
+def geometry(rng, p, kind, dz=1.0):
     lo = p["lo"]
     zu = max(z_uniform_of(p), lo + 20)
     top = p["hi"] - 1.0
+    if kind == "close-depths":
+        # source and receiver closer in depth than (a few) dz, including exactly equal depths
+        za = rng.uniform(max(zu, lo) + 5, top - 3 * dz - 1) if rng.random() < 0.8 else rng.uniform(lo + 5, top - 3 * dz - 1)
+        delta = rng.choice([0.0, rng.uniform(0, 0.1 * dz), rng.uniform(0.1 * dz, dz), rng.uniform(0.1 * dz, dz), rng.uniform(dz, 3 * dz)])
+        zb = za + rng.choice([-1, 1]) * delta
+        rho = rng.choice([rng.uniform(1, 30), rng.uniform(30, 400)])
+        return {"kind": kind, "z_from": za, "z_to": zb, "rho": rho, "phi": rng.uniform(0, 2 * math.pi),
+                "x0": rng.uniform(-500, 500), "y0": rng.uniform(-500, 500)}
     if kind == "shallow":
         za, zb = rng.uniform(max(zu, lo) + 1, top), rng.uniform(max(zu, lo) + 1, top)
     elif kind == "deep":
@@ -389,12 +397,14 @@ def darboux_allowance(icep, beta, legs, dz):
     """Upper bound of |trapezoid - integral| for the numeric tracer's grid on each monotone leg:
     sum_i h (M_i - m_i) <= h * TV(f) (C01.cell_error, summed), h < 2 dz (C01.linspace_grid_step);
     plus the part of the integral the grid does not cover: the dz/10 cut below the turning /
-    reflection depth, or the whole leg when it is shorter than dz (C01.numeric_direct_degenerate)."""
+    reflection depth, or the whole leg when it starts within dz/10 of its turning depth (no intervals)."""
     tot = np.zeros(3)
     for (za, zb, cut) in legs:
         zb_eff = zb - dz / 10 if cut else zb
         length = abs(zb_eff - za)
         nseg = int(length / dz)
+        if nseg == 0 and zb_eff > za:
+            nseg = 1          # a non-empty leg shorter than dz is one trapezoid (pyrex _n_intervals; C01 numeric_direct_short)
         if nseg == 0 or zb_eff <= za:
             tot += O.segment(icep["n0"], icep["k"], icep["a"], beta, min(za, zb), max(za, zb), panels=6)
             continue
@@ -551,7 +561,7 @@ def judge(ctx, tracer, dz, icep, g, paths, tr, stats):
 
 
 # ---------------------------------------------------------------------------- probes + end-to-end correspondence
-KINDS = ["shallow", "deep", "cross", "vertical", "shadow", "exact-vertical"]
+KINDS = ["shallow", "deep", "cross", "vertical", "shadow", "exact-vertical", "close-depths"]
 
 
 def probes_and_e2e(ctx, do_model=True, escalate=1):
@@ -568,8 +578,8 @@ def probes_and_e2e(ctx, do_model=True, escalate=1):
         while done < count and attempts < 5 * count:
             attempts += 1
             icep = pick_ice(rng)
-            kind = KINDS[(done + attempts) % len(KINDS)] if tracer != "BasicRayTracer" else rng.choice(["shallow", "cross", "shadow", "shallow", "exact-vertical"])
-            g = geometry(rng, icep, kind)
+            kind = KINDS[(done + attempts) % len(KINDS)] if tracer != "BasicRayTracer" else rng.choice(["shallow", "cross", "shadow", "shallow", "exact-vertical", "close-depths", "close-depths"])
+            g = geometry(rng, icep, kind, dz)
             if g is None:
                 continue
             if tracer == "BasicRayTracer":
@@ -631,10 +641,16 @@ def probes_and_e2e(ctx, do_model=True, escalate=1):
                         nlow = nprof(icep, min(g["z_from"], g["z_to"]))
                         root = math.asin(min(1.0, float(p.beta) / nlow))
                         fn = "M.sTracer_direct_r %s %s %s None" if p.direct else "M.sTracer_indirect_r %s %s %s " + rx.ocf(1e-6)
-                        for v in (root, root + 3e-12, root - 3e-12):
+                        # the root is reconstructed from the reported beta: asin is ill-conditioned next to pi/2
+                        droot = 3e-12 + 8 * math.ulp(float(p.beta)) / (nlow * max(math.cos(root), 1e-300))
+                        if droot > 1e-7:
+                            stats["brentq_root_reconstruction_ill_conditioned"] = stats.get("brentq_root_reconstruction_ill_conditioned", 0) + 1
+                            continue
+                        for v in (root, root + droot, root - droot):
                             e2e_cases.append("pr (" + fn % (mk_tracer(fp, tp, icep, dz), rx.ocf(v), rx.ocf(0.0)) + ")")
                         e2e_expect.append(("root", g["rho"]))
-                        e2e_meta.append({"tracer": tracer, "dz": dz, "ice": icep, "g": g, "direct": bool(p.direct), "theta0": th0, "q": "brentq_root", "root": root, "B": Bp[0]})
+                        e2e_meta.append({"tracer": tracer, "dz": dz, "ice": icep, "g": g, "direct": bool(p.direct), "theta0": th0, "q": "brentq_root", "root": root, "B": Bp[0],
+                                         "link": root > math.asin(min(nprof(icep, max(g["z_from"], g["z_to"])) / nlow, 1 - 2.0 ** -53)) - 1.000001e-6})
         stats.setdefault("wall_s", {})["%s dz=%s" % (tracer, dz)] = round(time.time() - t_start, 1)
     ctx.extra["probe"] = stats
     ctx.extra["probe_tolerances"] = (
@@ -653,12 +669,12 @@ def probes_and_e2e(ctx, do_model=True, escalate=1):
             trip = res[3 * i:3 * i + 3]
             good = all(t != "EXC" for t in trip)
             if good:
-                if q == "brentq_root":
+                if m["q"] == "brentq_root":
                     vals = [t[0] for t in trip]
                     # rho lies between the model's distance just left and right of the reported root
                     good = within(val, vals, 1e-9, 1e-9 + 2 * m.get("B", 0.0)) or (m["direct"] is False and abs(vals[0] - val) <= 1e-6 * max(1.0, val))
-                    if not good and m["root"] > 0 and not m["direct"]:
-                        good = None    # the link_range interpolation / peak neighbourhood: informational
+                    if not good and m.get("link") and not m["direct"]:
+                        good = None    # inside the link_range interpolation next to max_angle (open finding): informational
                 elif q.endswith("direction"):
                     good = all(within(val[j], [t[j] for t in trip], 1e-9, 1e-12) for j in range(3))
                 elif q == "tof":
